@@ -79,6 +79,7 @@ inductive Fld (V R : Type) where
   | rfn (f : R)                              -- functional rewards
   | disc (as : List V) (rs : List Rat)       -- `DiscreteReward(actions, rewards)` made by Finalize
   | ips (a : Option V) (v : Rat)             -- `BinaryReward(action, value)` made by OpeRewards('IPS')
+  deriving DecidableEq
 
 structure Pred (V : Type) where
   action : V
@@ -96,6 +97,7 @@ inductive Call (V : Type) where
   | predict (ctx : Option V) (acts : Option (List V))
   | score (ctx : Option V) (acts : Option (List V)) (a : Option V)
   | learn (ctx : Option V) (a : Option V) (r : Option Rat) (p : Option Rat) (kw : Dict V)
+  deriving DecidableEq
 
 /-- a cell of a result row -/
 inductive Cell (V R : Type) where
@@ -104,6 +106,7 @@ inductive Cell (V R : Type) where
   | num (q : Option Rat)                      -- recorded reward / probability
   | nums (qs : List Rat)                      -- recorded rewards of a discrete interaction
   | fld (f : Fld V R)                         -- an interaction field carried over unchanged
+  deriving DecidableEq
 
 abbrev Row (V R : Type) := Dict (Cell V R)
 
@@ -452,6 +455,7 @@ inductive Outcome (α : Type) where
   | rejected (keys : List String)             -- CobaException raised by `_validate` before anything else happens
   | crashed (e : Err)                         -- some other exception while evaluating
   | ok (a : α)
+  deriving DecidableEq
 
 def Outcome.ofExcept {α : Type} : Except Err α → Outcome α
   | .ok a => .ok a
@@ -657,9 +661,11 @@ def ipsWithoutProb (c : Config) (first : Dict (Fld V R)) : Bool :=
   (c.learn == .ips || c.eval == .ips) && !first.has "probability"
 
 /-- `probability: None` cells (written by the batched code path for learners without a probability) mean "absent" -/
-def dropNoneProb (o : Row V R) : Row V R :=
-  o.filter (fun kv => match kv with
-    | ("probability", Cell.num none) => false
-    | _ => true)
+def isNoneProb (kv : String × Cell V R) : Bool :=
+  match kv with
+  | ("probability", Cell.num none) => true
+  | _ => false
+
+def dropNoneProb (o : Row V R) : Row V R := o.filter (fun kv => !isNoneProb kv)
 
 end Coba.C06
